@@ -392,8 +392,66 @@ def check_poke(item):
     return finish(res, st)
 
 
+def check_pokerange(item):
+    """('pokerange', paged): --poke a1-a2-step,v pokes a1, a1+step, ... up to and including a2, nothing else"""
+    _, paged = item
+    st = Stats()
+    res = new_res()
+    import skoolkit.snapshot as snap
+    name = 'poke range with step%s' % (' in a bank' if paged else '')
+    BASE = 49160 if paged else 40000
+    LO, HI = BASE - 2, BASE + 10
+
+    def fn(path):
+        if paged:
+            banks = [[0] * 0x4000 for _ in range(8)]
+            mem = snap.Memory(banks=banks, page=0)
+        else:
+            mem = snap.Memory(snapshot=[0] * 65536)
+        a1 = sym_int('a1', BASE, BASE + 1)
+        a2 = sym_int('a2', BASE + 1, BASE + 6)
+        step = sym_int('step', 1, 3)
+        val = sym_int('val', 0, 255)
+        old = {}
+        for a in range(LO, HI):
+            v = sym_int('m%d' % a, 0, 255)
+            old[a] = v
+            if paged:
+                banks[3][a % 0x4000] = v
+            else:
+                mem[a] = v
+        snap.poke(mem, ('3:' if paged else '') + '%s-%s-%s,%s' % (a1, a2, step, val))
+        cur = {a: (banks[3][a % 0x4000] if paged else mem[a]) for a in range(LO, HI)}
+        return a1, a2, step, val, old, cur
+
+    def on(p, out):
+        res['obligations'] += 1
+        if isinstance(out, tuple) and out[0] == 'exception':
+            res['violations'].append(dict(key='%s:exception' % name, text='%s raises %r' % (name, out[1]), case=dict(kind='pokerange', paged=paged)))
+            return
+        a1, a2, step, val, old, cur = out
+        c1, c2, cs = p.realise(a1.e, 'a1'), p.realise(a2.e, 'a2'), p.realise(step.e, 'step')
+        hit = set(range(c1, c2 + 1, cs))
+        diffs = [bv(cur[a]) != (bv(val) if a in hit else bv(old[a])) for a in range(LO, HI)]
+        r, mod, _w = p.check_any(diffs)
+        if r == 'unknown':
+            res['inconclusive'].append(name); return
+        if r == 'sat':
+            res['violations'].append(dict(key='%s:frame' % name, text='%s: --poke %d-%d-%d changes cells other than %s (or misses one)' % (name, c1, c2, cs, sorted(hit)),
+                                          case=dict(kind='pokerange', paged=paged, a1=c1, a2=c2, step=cs)))
+            return
+        res['discharged'] += 1
+        res['nontrivial'] += 1
+
+    try:
+        explore(fn, stats=st, on_path=on)
+    except Inconclusive as e:
+        res['inconclusive'].append('%s: %s' % (name, e))
+    return finish(res, st)
+
+
 def work(item):
-    return {'rle': check_rle, 'hdr': check_hdr, 'poke': check_poke}[item[0]](item)
+    return {'rle': check_rle, 'hdr': check_hdr, 'poke': check_poke, 'pokerange': check_pokerange}[item[0]](item)
 
 
 # ---------------------------------------------------------------------------
@@ -463,6 +521,27 @@ def replay(case):
             if hi in vals and getattr(back, amap[pair]) != vals[lo] + 256 * vals[hi]:
                 bad.append(pair)
         return bool(bad), '; '.join(bad) or 'attributes read back as written'
+    if kind == 'pokerange':
+        if 'a1' not in case:
+            return False, 'no input'
+        if case['paged']:
+            banks = [[7] * 0x4000 for _ in range(8)]
+            mem = snap.Memory(banks=banks, page=0)
+            before = [list(b) for b in banks]
+            snap.poke(mem, '3:%d-%d-%d,9' % (case['a1'], case['a2'], case['step']))
+            exp = [list(b) for b in before]
+            for a in range(case['a1'], case['a2'] + 1, case['step']):
+                exp[3][a % 0x4000] = 9
+            return [list(b) for b in banks] != exp, 'banks after the poke differ from the documented effect' if [list(b) for b in banks] != exp else 'as documented'
+        mem = snap.Memory(snapshot=[7] * 65536)
+        snap.poke(mem, '%d-%d-%d,9' % (case['a1'], case['a2'], case['step']))
+        exp = [7] * 65536
+        exp[:16384] = [0] * 16384
+        for a in range(case['a1'], case['a2'] + 1, case['step']):
+            exp[a] = 9
+        got = mem[0:65536]
+        got[:16384] = [0] * 16384
+        return got != exp, 'memory after the poke differs from the documented effect' if got != exp else 'as documented'
     if kind == 'poke':
         if 'addr' not in case:
             return False, 'no input'
@@ -504,6 +583,7 @@ def main():
     for op in ('', '^', '+'):
         items.append(('poke', op, False))
         items.append(('poke', op, True))
+    items += [('pokerange', False), ('pokerange', True)]
     if args.only:
         items = [i for i in items if args.only in harness.item_name(i)]
     rep = harness.Report(
@@ -511,7 +591,7 @@ def main():
         functions=['skoolkit.snapshot.Z80._make_z80_ram_block / _decompress / _set_registers / _set_state / _read / data / set_ram', 'skoolkit.snapshot.SZX._add_zxst* / set_registers_and_state / data / _read / _get_zxstrampage',
                    'skoolkit.snapshot.Memory', 'skoolkit.snapshot.poke / _get_page', 'skoolkit.get_int_param / get_word / get_dword'],
         bounds={'rle free bytes': '1..%d fully symbolic bytes, both block forms' % nfree, 'rle runs': 'runs of one symbolic byte of length %s, alone / after / before / between other symbolic bytes' % ('1..600 (every length)' if args.tier == 'thorough' else runs),
-                'headers': 'all 8-bit registers, all 16-bit registers + MEMPTR, and all state attributes symbolic over their full ranges; 48K, 128K, +2; RAM all zero', 'poke': 'address in a 4-cell window, value 0..255, operators = ^ +, with and without a bank prefix',
+                'headers': 'all 8-bit registers, all 16-bit registers + MEMPTR, and all state attributes symbolic over their full ranges; 48K, 128K, +2; RAM all zero', 'poke': 'address in a 4-cell window, value 0..255, operators = ^ +, with and without a bank prefix; ranges a1-a2-step with a1 in 2, a2 in 6, step in 1..3 positions (realised)',
                 'outside': 'zlib itself (opaque invertible stub), file I/O, SNA, --move/--patch, bin2sna/snapmod command-line parsing'},
         assumptions=['numeral tokens abstract Python format()/int()', 'zlib.compress/decompress are inverse (stub)'],
         stubs=['bytes/bytearray/zlib shadowed in skoolkit.snapshot by list-backed stand-ins (lib/bytesshim.py)', 'int/isinstance shadowed in skoolkit, skoolkit.snapshot'],
